@@ -662,6 +662,10 @@ func osfsEngine(c *Ctx) {
 	}
 	// a directory link with an absolute target: its re-rooted twin inside the base holds a link, so does the host directory
 	corpus = append(corpus, []osNode{{"d", 'L', "@OUT@"}, {"@OUTREL@/l1", 'L', "inside-target"}, {"@OUTREL@/f", 'f', ""}, {"inside-target", 'f', ""}})
+	// absolute link targets that spell out the handle's own host base path: inside the base that path is just another path
+	// (base/<base path>/…), which exists here and holds other content than the host-side reading would reach
+	corpus = append(corpus, []osNode{{"f", 'f', ""}, {"@OUTREL@/x", 'd', ""}, {"@OUTREL@/x/base", 'd', ""}, {"@OUTREL@/x/base/f", 'f', ""}, {"@OUTREL@/x/base/d", 'd', ""},
+		{"l", 'L', "@OUT@/x/base/f"}, {"dl", 'L', "@OUT@/x/base"}, {"d", 'd', ""}, {"d/l1", 'L', "@OUT@/x/base/d/../f"}, {"l2", 'L', "dl/f"}})
 	// lassos: a link that is not on the cycle leads into a cycle of two or three links (relative, absolute, through a directory)
 	corpus = append(corpus, []osNode{{"tail", 'L', "a"}, {"a", 'L', "b"}, {"b", 'L', "a"}, {"l1", 'L', "tail"}, {"d", 'd', ""}, {"d/l1", 'L', "../tail/x"}, {"l2", 'L', "/tail"}, {"sub", 'L', "d"}})
 	corpus = append(corpus, []osNode{{"l1", 'L', "c1"}, {"c1", 'L', "/c2"}, {"c2", 'L', "d/../c3"}, {"c3", 'L', "c1"}, {"d", 'd', ""}, {"l2", 'L', "d/../l1"}, {"d/l1", 'L', "../l2"}, {"sub", 'L', "c2"}})
